@@ -162,6 +162,9 @@ func main() {
 				continue
 			}
 			out, p := sim.TeardownOut.Load(), sim.TeardownPlan.Load()
+			if os.Getenv("VERIF_WDSTACK") != "" {
+				fmt.Fprintln(os.Stderr, sim.StackDump())
+			}
 			v := sim.Violation{Prop: pr.Prop, Oracle: "spins-after-teardown", Msg: "after the run every context was cancelled, the client and all connections were closed, and 40 s of real time later a goroutine is still running without ever blocking"}
 			all := append([]sim.Violation{v}, out.Violations...)
 			if *onlyProp == "" || *onlyProp == pr.Prop {
